@@ -3,6 +3,7 @@ package mount
 import (
 	"errors"
 	"io"
+	"strings"
 	"time"
 
 	"github.com/hack-pad/hackpadfs"
@@ -227,6 +228,24 @@ func VerifC08Lstat() {
 	verifTag("lstat", []string{"works", "fails", "not-implemented"}[mode])
 	var fs hackpadfs.FS = c08LstatFS{m, mode}
 	name := []string{"f", "missing"}[verifChoice("name", 2)]
+	switch verifChoice("through", 3) {
+	case 1:
+		// the same through a mount: the helper's MountFS branch must ask the mounted file system's Lstat
+		verifTag("through", "mount")
+		root, rerr := mem.NewFS()
+		verifAssert(rerr == nil && root.Mkdir("mnt", 0755) == nil, "root")
+		mfs, merr := NewFS(root)
+		verifAssert(merr == nil && mfs.AddMount("mnt", fs) == nil, "AddMount")
+		fs, name = mfs, "mnt/"+name
+	case 2:
+		// a mounted file system that has no Lstat at all: Lstat reports ErrNotImplemented, also through the mount
+		verifTag("through", "mount-of-an-FS-without-Lstat")
+		root, rerr := mem.NewFS()
+		verifAssert(rerr == nil && root.Mkdir("mnt", 0755) == nil, "root")
+		mfs, merr := NewFS(root)
+		verifAssert(merr == nil && mfs.AddMount("mnt", m) == nil, "AddMount")
+		fs, name, mode = mfs, "mnt/"+name, 2
+	}
 	var info hackpadfs.FileInfo
 	if verifChoice("helper", 2) == 0 {
 		verifTag("helper", "Lstat")
@@ -244,7 +263,7 @@ func VerifC08Lstat() {
 	case mode == 1:
 		verifAssert(err != nil, "the helper reported success although Lstat failed")
 		verifAssert(errors.Is(err, c08ErrInjected), "the helper must return Lstat's error")
-	case name == "missing":
+	case strings.HasSuffix(name, "missing"):
 		verifAssert(err != nil && errors.Is(err, hackpadfs.ErrNotExist), "missing file must be reported")
 	default:
 		verifAssert(err == nil && info != nil && info.Size() == 1, "Lstat of an existing file failed")
